@@ -176,25 +176,8 @@ def arm_Condition(ctx, ip, arm):
 
 
 def arm_Comparison(ctx, ip, arm):
-    ok = single_ok(arm)
-    detail = ""
-    if ok:
-        for t in arm.oks[0][1]:
-            ok = ok and t[0] == "call" and t[1] == "std::option::Option::<T>::map_or"
-            if not ok:
-                break
-            cmp_, dflt, clo = t[2]
-            for c in cmp_:
-                ok = ok and c[0] == "call" and c[1] == "variable::Variable::compare" and ip.is_res(set(c[2][0]), "Comparison.lhs") and \
-                    set(c[2][1]) == {("field", NODE, "Comparison.comparator")} and ip.is_res(set(c[2][2]), "Comparison.rhs")
-            ok = ok and set(dflt) == {("agg", V + "::Null", (), ())}
-            for c in clo:
-                ok = ok and c[0] == "closure"
-                if ok:
-                    cb = ip.lib.fn(c[1])
-                    co = Origins(cb, ip.lib)
-                    r = co.of_local(0)
-                    ok = all(x[0] == "agg" and x[1] == V + "::Bool" and set(x[2][0]) == {("param", 2)} for x in r) and bool(r)
+    from ..interp import comparison_mapping_ok
+    ok = comparison_mapping_ok(ip, arm)
     chk(ctx, ip, arm, "result", ok, "result is compare(left, comparator, right) mapped None -> null, Some(b) -> Bool(b)")
 
 
